@@ -35,7 +35,7 @@ def plan(tier, seed):
         cfgs += [{'signature': s} for s in ([1, 1, 1, 1], [1, -1, 1, -1], [-1, -1, -1, 1], [-1, 1], [1, 1, -1])]
         cfgs += [gen.random_custom_cfg(rng, rng.choice((2, 3, 4)), allow_null=False) for _ in range(10)]
         for c in cfgs:
-            U += u(c, 'random', 1, count=30, cap=8, blades=True)
+            U += u(c, 'random', 1, count=90, cap=8, blades=True)
         for c in [c for c in gen.pqr_all(5, 5) if c['r'] == 0]:
             U += u(c, 'sparse', 1, count=8, cap=5, blades=True)
         for c in rng.sample(gen.pqr_all(5, 5), 4) + rng.sample(gen.pqr_all(6, 6), 2):
